@@ -22,9 +22,11 @@ const (
 	Lost                          // no reply
 	StrayOK                       // a well-formed (in-session: authentic) reply to a different command, normal code
 	StrayBusy                     // the same carrying the temporary code 0xC0
+	StraySetup                    // a delayed RMCP+ session-setup packet (RAKP Message 4 / Open Session Response) outside any session
+	StrayASF                      // an RMCP packet of another class (ASF presence pong) or an RMCP ACK
 )
 
-var outcomeNames = map[Outcome]string{Final: "final", FinalCC: "final-cc", FinalTruncated: "final-truncated", Busy: "busy", TimeoutCC: "timeout-code", Garbage: "garbage", BadSig: "bad-signature", Lost: "lost", StrayOK: "stray-reply", StrayBusy: "stray-reply-busy"}
+var outcomeNames = map[Outcome]string{Final: "final", FinalCC: "final-cc", FinalTruncated: "final-truncated", Busy: "busy", TimeoutCC: "timeout-code", Garbage: "garbage", BadSig: "bad-signature", Lost: "lost", StrayOK: "stray-reply", StrayBusy: "stray-reply-busy", StraySetup: "stray-setup-packet", StrayASF: "stray-asf-or-ack"}
 
 func (o Outcome) String() string { return outcomeNames[o] }
 
@@ -103,8 +105,21 @@ func applyOutcome(b *simbmc.BMC, rx *simbmc.Rx, o Outcome, finalCode byte) {
 	case TimeoutCC:
 		rx.Replies = reply(0xC3, nil)
 	case Garbage:
-		g := append([]byte{0x06, 0x00, 0xff, 0x07, 0x06, 0x00}, b.Rand.Bytes(3+b.Rand.Intn(20))...)
-		rx.Replies = []memnet.Out{{Data: g}}
+		// an undecodable reply: random bytes behind a plausible header, or the
+		// genuine reply cut short at a random position, or (in a session with
+		// integrity) the genuine reply with a byte appended behind the AuthCode
+		style := b.Rand.Intn(4)
+		switch {
+		case style == 2 && len(rx.Replies) > 0 && len(rx.Replies[0].Data) > 1:
+			d := rx.Replies[0].Data
+			rx.Replies = []memnet.Out{{Data: append([]byte(nil), d[:b.Rand.Intn(len(d))]...)}}
+		case style == 3 && len(rx.Replies) > 0 && sess != nil && sess.Suite.Integ != ref.IntegNone:
+			d := append(append([]byte(nil), rx.Replies[0].Data...), b.Rand.Bytes(1)...)
+			rx.Replies = []memnet.Out{{Data: d}}
+		default:
+			g := append([]byte{0x06, 0x00, 0xff, 0x07, 0x06, 0x00}, b.Rand.Bytes(3+b.Rand.Intn(20))...)
+			rx.Replies = []memnet.Out{{Data: g}}
+		}
 	case BadSig:
 		if len(rx.Replies) > 0 && sess != nil && sess.Suite.Integ != ref.IntegNone {
 			d := append([]byte(nil), rx.Replies[0].Data...)
@@ -116,6 +131,20 @@ func applyOutcome(b *simbmc.BMC, rx *simbmc.Rx, o Outcome, finalCode byte) {
 		}
 	case Lost:
 		rx.Replies = nil
+	case StraySetup:
+		pt, payload := uint8(ref.PTRAKP4), append([]byte{0x00, 0x00, 0x00, 0x00, 0x01, 0x00, 0x00, 0x00}, b.Rand.Bytes(12)...)
+		if b.Rand.Intn(2) == 0 {
+			pt, payload = ref.PTOpenRsp, (&ref.OpenRsp{Tag: 0, SIDM: 1, SIDC: 0x02030405, Priv: 4, Algs: [3]byte{1, 1, 1}}).Bytes()
+		}
+		rx.Replies = []memnet.Out{{Data: ref.BuildPacket(&ref.Packet{PayloadType: pt, Payload: payload}, 0, nil)}}
+	case StrayASF:
+		if b.Rand.Intn(2) == 0 {
+			// ASF presence pong (RMCP class 6)
+			rx.Replies = []memnet.Out{{Data: []byte{0x06, 0x00, 0xff, 0x06, 0x00, 0x00, 0x11, 0xbe, 0x40, 0x00, 0x00, 0x10, 0x00, 0x00, 0x11, 0xbe, 0x00, 0x00, 0x00, 0x00, 0x81, 0x00, 0x00, 0x00, 0x00, 0x00, 0x00, 0x00}}}
+		} else {
+			// RMCP ACK for sequence number 0x2a, IPMI class
+			rx.Replies = []memnet.Out{{Data: []byte{0x06, 0x00, 0x2a, 0x87}}}
+		}
 	case StrayOK, StrayBusy:
 		// Get Channel Info (App 0x42) unless that is what was asked; then Get
 		// Channel Access (0x41): neither is used by the checks' commands
